@@ -425,24 +425,46 @@ def check_hillshade(prog, rep):
     for n in f.own_nodes():
         if isinstance(n, ast.Assign) and isinstance(n.targets[0], ast.Subscript):
             stores.append(n)
-    want = {('rows', '(0, -1)'), ('cols', '(0, -1)')}
-    got = set()
+    # the NaN stores on the returned array must cover exactly the first/last row and the first/last column, in any
+    # grouping: [(0, -1), :] or [0, :] and [-1, :] ...
+    rows, cols = set(), set()
+    other = []
     retname = None
     for n in f.own_nodes():
         if isinstance(n, ast.Return) and isinstance(n.value, ast.Name):
             retname = n.value.id
+
+    def _full(e):
+        return isinstance(e, ast.Slice) and e.lower is None and e.upper is None and e.step is None
+
+    def _consts(e):
+        try:
+            v = ast.literal_eval(e)
+        except Exception:
+            return None
+        if isinstance(v, int) and not isinstance(v, bool):
+            return {v}
+        if isinstance(v, (tuple, list)) and v and all(isinstance(x, int) and not isinstance(x, bool) for x in v):
+            return set(v)
+        return None
     for n in stores:
         t = n.targets[0]
         isnan = norm(n.value) in ('np.nan', 'numpy.nan', "float('nan')", 'math.nan')
-        if isinstance(t.value, ast.Name) and t.value.id == retname and isinstance(t.slice, ast.Tuple) \
-                and len(t.slice.elts) == 2 and isnan:
+        if not (isinstance(t.value, ast.Name) and t.value.id == retname):
+            continue
+        if isinstance(t.slice, ast.Tuple) and len(t.slice.elts) == 2 and isnan:
             a, b = t.slice.elts
-            if isinstance(b, ast.Slice) and b.lower is None and b.upper is None and _is_first_last(a):
-                got.add(('rows', '(0, -1)'))
-            if isinstance(a, ast.Slice) and a.lower is None and a.upper is None and _is_first_last(b):
-                got.add(('cols', '(0, -1)'))
-    rep.add('L6-border', f, entry, 'border stores: %s' % [norm(s) for s in stores], f.node.lineno, got == want,
-            'first/last row and first/last column of the returned array must be set to NaN')
+            if _full(b) and _consts(a) is not None:
+                rows |= _consts(a)
+                continue
+            if _full(a) and _consts(b) is not None:
+                cols |= _consts(b)
+                continue
+        other.append(norm(n))
+    rep.add('L6-border', f, entry, 'border stores: %s' % [norm(s) for s in stores], f.node.lineno,
+            rows == {0, -1} and cols == {0, -1} and not other,
+            'exactly the first/last row and the first/last column of the returned array must be set to NaN (rows %s, '
+            'columns %s, other stores %s)' % (sorted(rows), sorted(cols), other))
     # formula shape: result = (shaded + 1) / 2 with shaded = sin(alt)*sin(slope) + cos(alt)*cos(slope)*cos(az - pi/2 - aspect)
     try:
         env = {}
